@@ -870,7 +870,31 @@ func TestVerif_C02_sideeffects(t *testing.T) {
 			c.Bubble(t, 30*time.Minute, "lookup-hang", func(t *testing.T) {
 				res := vRunLookup(t, c, sc)
 				d := vDerive(res)
-				if res.Cancelled {
+				// A lookup that ended by itself at the very instant of the cancellation is not a cancelled lookup: its
+				// terminate event names a normal reason AND nothing of it was cut short (every request has its reply, no
+				// reply and no dial saw the context end - a cancellation during the follow-up phase leaves such traces).
+				// Both orders of the two simultaneous events are legal; its stamps are not judged.
+				cutShort := false
+				asked, answered := 0, 0
+				for _, e := range res.Log {
+					switch e.Kind {
+					case vsim.EvRequest:
+						asked++
+					case vsim.EvReply:
+						answered++
+						if e.CtxErr != "" {
+							cutShort = true
+						}
+					}
+				}
+				for _, dl := range res.Dials {
+					if dl.CtxErr != "" {
+						cutShort = true
+					}
+				}
+				if res.Cancelled && (d.reason == "completed" || d.reason == "starvation") && !cutShort && asked == answered {
+					c.Obs("lookups_completed_at_the_cancel_instant", 1)
+				} else if res.Cancelled {
 					same := true
 					for i, tm := range res.RefreshBefore {
 						if tm.IsZero() {
